@@ -1519,7 +1519,7 @@ expression_t TypeChecker::checkInitialiser(type_t type, expression_t init)
 */
 bool TypeChecker::areInlineIfCompatible(type_t result_type, type_t t1, type_t t2) const
 {
-    if (areAssignmentCompatible(result_type, t1) && areAssignmentCompatible(result_type, t1))
+    if (areAssignmentCompatible(result_type, t1) && areAssignmentCompatible(result_type, t2))
         return true;
 
     return areEquivalent(t1, t2);
